@@ -7,8 +7,14 @@ except Exception as _e:  # back end missing: the three C properties are then not
     _U = {}
 
 
+# units named *_fn (one-level functional contracts with uninterpreted kernels) are still under construction:
+# they are registered only once listed in STABLE_FN
+STABLE_FN = set()
+
+
 def _units(prop, tier):
-    return [c(n) for n, d in _U.items() if prop in d["props"] and d["tier"] == tier]
+    return [c(n) for n, d in _U.items() if prop in d["props"] and d["tier"] == tier
+            and (not n.endswith("_fn") or n in STABLE_FN)]
 
 
 _CBMC_NOTE = ("trusted: CBMC 6.11 (goto-cc, goto-instrument --dfcc, SAT back ends), its models of memcpy/memset, "
